@@ -213,9 +213,10 @@ def main():
                 and gm == [i in set(gi) for i in range(len(col))]
             if not ok:
                 rac.fail(f"comp {''.join(col)} {selector_src(s1)} {selector_src(s2)}", f"C08 column {list(col)}: rows[{selector_src(s1)}, {selector_src(s2)}] gives {g} "
-                         f"(indices {gi}), rows[s1].rows[s2] gives {w}", PRELUDE + REF_SRC + f"t = mk({list(col)!r})\ns1 = {selector_src(s1)}; s2 = {selector_src(s2)}\n"
+                         f"(indices {gi}, mask {gm}), rows[s1].rows[s2] gives {w}", PRELUDE + REF_SRC + f"t = mk({list(col)!r})\ns1 = {selector_src(s1)}; s2 = {selector_src(s2)}\n"
                          "a = t.rows[s1, s2]; b = t.rows[s1].rows[s2]\nassert list(a['name']) == list(b['name']) and list(a['s']) == list(b['s']), (list(a['name']), list(b['name']))\n"
-                         "i = t.rows.indices[s1, s2]\nassert list(t['name'][i]) == list(b['name'])\n", "_RowView.__getitem__")
+                         "i = t.rows.indices[s1, s2]\nassert list(t['name'][i]) == list(b['name'])\n"
+                         "m = t.rows.mask[s1, s2]\nassert [bool(x) for x in m] == [k in set(int(q) for q in i) for k in range(len(t))], (list(m), list(i))\n", "_RowView.__getitem__")
     rac.section("many-names", "12..30 distinct names each occurring 1..3 times: 're::count' must come back in table order whatever "
                 "the iteration order of a set of names is; case-insensitive matching; random value ranges", "25 quick / 400 thorough",
                 exhaustive=False)
